@@ -15,7 +15,10 @@ Scalars: mode `q` = `Rat` written `p/q`, mode `f` = `Float` written as 16 hex di
   lik   <mode> S K n N | <triples a,b,c …> | <π S> | <props K> | <mats B·K·S·S> | <tips n·N·S> [| <weights N>]
   likts <mode> S K N   | <triples> | <π> | <props> | <mats> | <states n·N> [| <weights N>]
   marg  <mode> S K n N | <taxa…> | <tokens…> | <π> | <props> | <mats> | <tips n·N·S>
-  pat   <size> <aa 0/1> <useAmb 0/1> | <taxa…> | <name=SEQ …>   -> patterns, weights, tip vectors, tip states
+  pat   <size> <dt 0|1|c<k>> <useAmb 0/1> | <taxa…> | <name=SEQ …> [| <indices 3 1:5 ::2 …>] -> patterns, weights, tip vectors, tip states
+  patg  <useAmb> | <taxa…> | <name=SEQ …> | <codes…> | <K=A,G …>   -> the same for a GeneralDataType
+  codon <k> <o1> <o2> <o3>                          -> tip vector, tip state, state count for genetic code k
+  site  <j> | <columns…>                            -> index of the pattern site j belongs to
   sym   <aa 0/1> <useAmb 0/1> <ord>                 -> tip vector and tip state of one character
   jc69  <t hex>                                     -> the 16 entries of the JC69 matrix in closed form (Float)
 -/
@@ -183,26 +186,73 @@ def parseSeq (w : String) : Option (String × List Char) :=
 def showSym (s : Sym) : String := String.ofList s
 def showNats (l : List Nat) : String := "".intercalate (l.map toString)
 
-def doPat (size : Nat) (aa useAmb : Bool) (secs : List (List String)) : String :=
-  match secs with
-  | [taxa, seqs] =>
-    match seqs.mapM parseSeq with
-    | none => "bad-op"
-    | some seqs =>
-      let pats := patterns size taxa seqs
+def parseOptInt (w : String) : Option (Option Int) := if w = "" then some none else (w.toInt?).map some
+
+/-- `3`, `-1`, `1:5`, `:4`, `::2`, `5:0:-1` -/
+def parseIdx (w : String) : Option Idx :=
+  match w.splitOn ":" with
+  | [i] => (i.toInt?).map Idx.at
+  | [a, b] => do pure (Idx.slice (← parseOptInt a) (← parseOptInt b) none)
+  | [a, b, c] => do pure (Idx.slice (← parseOptInt a) (← parseOptInt b) (← parseOptInt c))
+  | _ => none
+
+/-- `0` nucleotide, `1` amino acid, `c<k>` codon with genetic code number `k` -/
+def parseDT (w : String) : Option DT :=
+  if w = "0" then some .nuc else if w = "1" then some .aa
+  else if w.startsWith "c" then
+    match (w.drop 1).toNat? with
+    | some k => (TTGen.C01.geneticCodes[k]?).map DT.codon
+    | none => none
+  else none
+
+def doPatDT (size : Nat) (dt : DT) (useAmb : Bool) (taxa : List String) (seqs : List String)
+    (idx : Option (List Idx)) : String :=
+  match seqs.mapM parseSeq with
+  | none => "bad-op"
+  | some seqs =>
+    match patternsIdx size taxa seqs idx with
+    | none => "err index"
+    | some pats =>
       let cols := pats.map (·.1)
       let ws := pats.map (·.2)
       -- per taxon (Taxa order): symbols of every pattern, tip vectors, tip states
       let rows := taxa.map fun nm => cols.map fun p => symbolOf taxa seqs nm p
       if rows.any (fun r => r.any Option.isNone) then "err missing-taxon" else
       let rows := rows.map fun r => r.map fun o => o.getD []
-      let part := rows.map fun r => r.map fun s => symPartial aa useAmb s
-      let sts := rows.map fun r => r.map fun s => symTipState aa s
+      let part := rows.map fun r => r.map fun s => symPartialDT dt useAmb s
+      let sts := rows.map fun r => r.map fun s => symTipStateDT dt s
       let showPart (r : List (Option (List Nat))) : String :=
         ",".intercalate (r.map fun o => match o with | some v => showNats v | none => "x")
       let showSt (r : List (Option Nat)) : String :=
         ",".intercalate (r.map fun o => match o with | some v => toString v | none => "x")
       s!"ok w {",".intercalate (ws.map toString)} rows {";".intercalate (rows.map fun r => ",".intercalate (r.map showSym))} part {";".intercalate (part.map showPart)} st {";".intercalate (sts.map showSt)}"
+
+def doPat (size : Nat) (dt : DT) (useAmb : Bool) (secs : List (List String)) : String :=
+  match secs with
+  | [taxa, seqs] => doPatDT size dt useAmb taxa seqs none
+  | [taxa, seqs, ix] =>
+    match ix.mapM parseIdx with
+    | some ix => doPatDT size dt useAmb taxa seqs (some ix)
+    | none => "bad-op"
+  | _ => "bad-op"
+
+/-- `K=A,G` (ambiguity key = listed codes) -/
+def parseAmb (w : String) : Option (Sym × List Sym) :=
+  match w.splitOn "=" with
+  | [k, v] => some (k.toList, (v.splitOn ",").map String.toList)
+  | _ => none
+
+/-- `patg <useAmb> | taxa | seqs | codes… | K=A,G …` — GeneralDataType with one-character codes -/
+def doPatG (useAmb : Bool) (secs : List (List String)) : String :=
+  match secs with
+  | [taxa, seqs, codes, ambs] =>
+    match ambs.mapM parseAmb with
+    | some ambs => doPatDT 1 (.general (codes.map String.toList) ambs) useAmb taxa seqs none
+    | none => "bad-op"
+  | [taxa, seqs, codes, ambs, ix] =>
+    match ambs.mapM parseAmb, ix.mapM parseIdx with
+    | some ambs, some ix => doPatDT 1 (.general (codes.map String.toList) ambs) useAmb taxa seqs (some ix)
+    | _, _ => "bad-op"
   | _ => "bad-op"
 
 def parseBool : String → Option Bool | "1" => some true | "0" => some false | _ => none
@@ -246,10 +296,30 @@ def handle (line : String) : String :=
       let m := jc69P (α := Float) Nat.toFloat d
       "ok " ++ " ".intercalate ((List.finRange 4).flatMap fun s => (List.finRange 4).map fun j => floatBits (m s j))
     | none => "bad-op"
-  | ["pat", size, aa, ua] :: rest =>
-    match size.toNat?, parseBool aa, parseBool ua with
-    | some size, some aa, some ua => doPat size aa ua rest
+  | ["pat", size, dt, ua] :: rest =>
+    match size.toNat?, parseDT dt, parseBool ua with
+    | some size, some dt, some ua => doPat size dt ua rest
     | _, _, _ => "bad-op"
+  | ["patg", ua] :: rest =>
+    match parseBool ua with
+    | some ua => doPatG ua rest
+    | none => "bad-op"
+  | [["codon", k, o1, o2, o3]] =>
+    match k.toNat?, o1.toNat?, o2.toNat?, o3.toNat? with
+    | some k, some o1, some o2, some o3 =>
+      match TTGen.C01.geneticCodes[k]? with
+      | some t =>
+        let p := codonPartial t [o1, o2, o3]
+        let st := codonTipState t [o1, o2, o3]
+        s!"ok {match p with | some v => showNats v | none => "x"} {match st with | some v => toString v | none => "x"} {codonStateCount t}"
+      | none => "bad-op"
+    | _, _, _, _ => "bad-op"
+  | [["site", j], cols] =>
+    match j.toNat? with
+    | some j => match patternOf (cols.map String.toList) j with
+      | some p => s!"ok {p}"
+      | none => "err index"
+    | none => "bad-op"
   | [["sym", aa, ua, o]] =>
     match parseBool aa, parseBool ua, o.toNat? with
     | some aa, some ua, some o =>
